@@ -92,7 +92,7 @@ def nearest(labels, v, tol):
     """positions of nearest labels within tol (several on a tie); [] if none"""
     best, where = None, []
     for p, l in enumerate(labels):
-        d = abs(l - v)
+        d = 0.0 if l == v else abs(l - v)      # (an infinite label is at distance 0 from itself, not inf - inf)
         if best is None or d < best:
             best, where = d, [p]
         elif d == best:
